@@ -101,7 +101,13 @@ struct ProjVis {
 			multi::array<double, D> C(pv); for(L k = 0; k < N; ++k) if(C.data_elements()[k] != f(src(k))) violation(K + "array-from-projection", "array from the transformed view differs"); break; }
 		case 1: if constexpr(is_mutable_view<V>) { auto f = [](int& x) -> int& { return x; }; auto&& pv = v.element_transformed(decltype(f)(f)); check_addr(K, pv, m, [&](L k) { return static_cast<void const*>(&src(k)); }); L k = g->below(N); m.unlin(k, ix); brk(pv, ix) = -55; if(src(k) != -55) violation(K + "write-through", "write through a reference-yielding transformation did not land in the source"); } break;
 		case 2: { auto&& pv = std::as_const(v).template static_array_cast<int const>(); check_addr(K, pv, m, [&](L k) { return static_cast<void const*>(&src(k)); }); break; }
-		case 3: if constexpr(D > 1) { auto&& pv = v.as_const(); check_addr(K, pv, m, [&](L k) { return static_cast<void const*>(&src(k)); }); } break;
+		case 3: if constexpr(D > 1) { auto&& pv = v.as_const(); check_addr(K, pv, m, [&](L k) { return static_cast<void const*>(&src(k)); });
+			{ // the same from a source whose indices do not start at zero: as_const / const_array_cast keep the extensions (first indices included) and the element at every index
+				L const r0 = g->in(-3, 4); L r1 = g->in(-3, 3); if(r1 == 0) r1 = 2; auto&& w = v.reindexed(r0, r1); count("re-based-sources");
+				auto twin = [&](auto&& pw, char const* what) { if(!(pw.extensions() == w.extensions())) violation(K + "re-based:" + what + ":extensions", std::string(what) + " of a re-based view reports other extensions than its source");
+					else { std::vector<L> jx; for(L k = 0; k < N; ++k) { m.unlin(k, ix); jx = ix; jx[0] += r0; jx[1] += r1; if(static_cast<void const*>(std::addressof(brk(pw, jx))) != static_cast<void const*>(&src(k))) { violation(K + "re-based:" + what + ":element-identity", std::string(what) + " of a view whose indices start at (" + std::to_string(r0) + "," + std::to_string(r1) + ",0...) designates another element at relative index " + join(ix) + " (off by " + std::to_string(static_cast<int const*>(static_cast<void const*>(std::addressof(brk(pw, jx)))) - &src(k)) + " elements)"); break; } } } };
+				twin(w.as_const(), "as_const"); twin(std::as_const(w).template const_array_cast<int>(), "const_array_cast"); twin(std::as_const(w).template static_array_cast<int const>(), "static_array_cast<int const>"); }
+			} break;
 		case 4: if constexpr(D > 1) { auto&& pv = std::as_const(v).template const_array_cast<int>(); check_addr(K, pv, m, [&](L k) { return static_cast<void const*>(&src(k)); }); } break;
 		default: { multi::array<long, D> C(std::as_const(v)); if(tuple_to_vec(C.sizes()) != m.size) violation(K + "extents", "converted array has other extents"); for(L k = 0; k < N; ++k) if(C.data_elements()[k] != long(src(k))) violation(K + "value", "converted array differs element-wise");
 			if constexpr(D >= 3) { auto&& iv = std::as_const(v).rotated().transposed().unrotated(); MV im = m_unrotated(m_transposed(m_rotated(m))); multi::array<long, D> C2(iv); multi::array<int, D> C3(iv);  // inner dimensions permuted (compact when v is)
